@@ -950,6 +950,57 @@ func (s *shpModel) shpStub(name string, f *types.Func, recv oval, args []oval) (
 		pl.fields["NumPoints"] = oInt(len(pts))
 		pl.fields["Box"] = s.boxOfPoints(pts)
 		return []oval{oPtr{pl}}, true
+	case "(*shp.Box).ExtendWithPoint", "(*shp.Box).Extend":
+		// go-shp's own box arithmetic: four strict comparisons per point (Extend: the two corners)
+		var bx *oStruct
+		switch r := recv.(type) {
+		case oPtr:
+			bx = r.s
+		case *oStruct:
+			bx = r
+		}
+		arg, _ := args[0].(*oStruct)
+		if bx == nil || arg == nil {
+			return top(short + " of " + showVal(recv))
+		}
+		ext := func(xv, yv oval) bool {
+			for _, d := range []struct {
+				f  string
+				v  oval
+				op token.Token
+			}{{"MinX", xv, token.LSS}, {"MinY", yv, token.LSS}, {"MaxX", xv, token.GTR}, {"MaxY", yv, token.GTR}} {
+				b, ok := s.it.compareVals(d.op, d.v, bx.fields[d.f]).(oBool)
+				if !ok {
+					return false
+				}
+				if b {
+					bx.fields[d.f] = d.v
+				}
+			}
+			return true
+		}
+		ok := false
+		if f.Name() == "ExtendWithPoint" {
+			ok = ext(arg.fields["X"], arg.fields["Y"])
+		} else {
+			ok = ext(arg.fields["MinX"], arg.fields["MinY"]) && ext(arg.fields["MaxX"], arg.fields["MaxY"])
+		}
+		if !ok {
+			return top(short + ": the comparison of " + showVal(arg) + " with " + showVal(bx) + " is not decided")
+		}
+		return nil, true
+	case "shp.BBoxFromPoints":
+		ps, ok := args[0].(oSlice)
+		if !ok {
+			if _, isNil := args[0].(oNil); !isNil {
+				return top("BBoxFromPoints of " + showVal(args[0]))
+			}
+		}
+		var pts []oval
+		for i := 0; i < ps.length(); i++ {
+			pts = append(pts, ps.at(i))
+		}
+		return []oval{s.boxOfPoints(pts)}, true
 	case "shp.Create":
 		fnm, ok := strOf(args[0])
 		gt, ok2 := args[1].(oInt)
